@@ -514,10 +514,11 @@ def run(ctx):
     for case in fixed_corpus(names):
         dispatch(ctx, impls, case, ("fixed-corpus",))
     quick = ctx.quick()
-    n_kernel = 1200 if quick else 30000
-    n_table = 1600 if quick else 40000
-    n_axis = 100 if quick else 2500
-    n_cli = 20 if quick else 300
+    nw = max(1, getattr(ctx, "worker", (0, 1))[1])  # thorough totals are split over the worker processes
+    n_kernel = 1200 if quick else 32000 // nw
+    n_table = 1600 if quick else 40000 // nw
+    n_axis = 100 if quick else 2400 // nw
+    n_cli = 20 if quick else 320 // nw
     # systematic kernel sweep: every named function x stored zeros x index order, on both implementations
     for impl in names:
         for fn in ELEMENTWISE + VECTORWISE + KERNEL_ONLY:
